@@ -36,19 +36,19 @@ import (
 )
 
 type nilAn struct {
-	e       *E3
-	f       *Flow
-	dvals   map[ssa.Value]bool
-	dallocs map[*ssa.Alloc]bool
-	dfields map[string]bool
-	drets   map[*ssa.Function]map[int]bool
-	nvals   map[ssa.Value]string // may-nil pointer (or container of may-nil pointers) -> origin
-	nallocs map[*ssa.Alloc]string
-	nfields map[string]string
-	nrets   map[*ssa.Function]map[int]string
-	ptrMemo map[types.Type]bool
+	e         *E3
+	f         *Flow
+	dvals     map[ssa.Value]bool
+	dallocs   map[*ssa.Alloc]bool
+	dfields   map[string]bool
+	drets     map[*ssa.Function]map[int]bool
+	nvals     map[ssa.Value]string // may-nil pointer (or container of may-nil pointers) -> origin
+	nallocs   map[*ssa.Alloc]string
+	nfields   map[string]string
+	nrets     map[*ssa.Function]map[int]string
+	ptrMemo   map[types.Type]bool
 	hasCaller map[*ssa.Function]bool
-	changed bool
+	changed   bool
 }
 
 func isPtrLike(t types.Type) bool {
